@@ -10,7 +10,8 @@ reg('C19', engine='h_threads', variants=['tsan'],
          'non-trivial = planner run that passed through >= 1 yield point (or a surface scenario); distinct = interleaving '
          'signature (hash of the global order of (thread, yield point) events) x scenario',
     floors={'quick': {'c19_checkMotion_calls': 100000, 'c19_gnat_queries': 50000, 'c19_pdef_snapshots': 10000, 'c19_log_lines': 20000,
-                      'c19_ptc_evaluations': 20000, 'c19_yield_events': 50000, 'c19_planners_with_2_signatures': 5},
+                      'c19_ptc_evaluations': 20000, 'c19_yield_events': 50000, 'c19_planners_with_2_signatures': 7,
+                      'c19_planner_continued_solves': 120},
             'thorough': {'c19_planners_with_2_signatures': 5}},
     hang_is_violation=True, case_timeout={'quick': 300, 'thorough': 600},
     level_text='ThreadSanitizer (happens-before race detection, lock-order inversion) on every execution plus functional '
